@@ -63,8 +63,9 @@ fails with the patch.  None was ever committed to `/repo`; `seedall.py` applies 
 property it breaks, and reverts (`git -C /repo checkout -- .`).
 
 Seeds `-1..-3` (48, all properties except C15) arrived while the checks were being built and were used to strengthen them; seeds
-`-4, -5` (24, twelve properties) came later and were first run blind — `seeded/ROUND2_BLIND.md` records that first contact: 16
-detected, 6 undecided, 2 missed (both were missing clauses, since added).  Final state (`seeded/RESULTS.md`, last run of
+`-4, -5` (32, all sixteen claimed properties, in two later rounds) were first run blind — `seeded/ROUND2_BLIND.md` records that first
+contact: 19 detected, 9 undecided, 4 missed.  Every miss was a gap in what the contracts stated (a clause nobody had written, a
+function of an anchor file not listed for the property); each was closed, and attribution was made to follow the anchor files.  Final state (`seeded/RESULTS.md`, last run of
 `seedall.py`): **{len(det)} of {len(seeds)} detected, {len(und)} undecided (exit 2), {len(mis)} missed**.
 
 | seed | outcome | failed obligations (first three) or reason |
